@@ -5,6 +5,14 @@ the whole trie from `INITIAL_BOOOK_MOVES` is played with the checked `move_new` 
 position, with no promotion piece.
 -/
 import ChessVerif.Model.MoveGen
+import ChessVerif.Gen.Book
+
+namespace Chess.Lookup
+/-- one `u16` of `BOOK` (4096 words per literal); kept out of `Model/Lookup.lean` so that a changed
+book invalidates only the modules that are about the book -/
+def bookAt (i : Nat) : Nat :=
+  if i < Gen.Book.bookSize then ((Gen.Book.chunks.getD (i / 4096) 0) >>> (16 * (i % 4096))) % 65536 else 0
+end Chess.Lookup
 
 namespace Chess.Book
 open Chess
